@@ -8,6 +8,11 @@ pub const CORPUS_README: &str = include_str!("../../corpus/readme_exprs.txt");
 /// Expressions named in the property records and found while probing (deviations and their
 /// conforming neighbours).
 pub const CORPUS_EXTRA: &[&str] = &[
+    // A class that leads a branch directly after case-insensitive text (round 9, C04-J).
+    "(?i)shot-<[0-9a-f]:4>.png",
+    "(?i)disk-{[a-d],all}.img",
+    "(?i)x{[a-c]*,d}",
+    "(?i)ab<[a-z]:2>",
     // Nothing but flags: the parse fails exactly at the end of the input (round 8, C17-I).
     "(?i)",
     "(?-i)",
